@@ -108,12 +108,12 @@ class FindSelf(FnSpec):
     hints = {"param_names": "list", "args": "tuple", "kwargs": "dict"}
 
     def requires(self, c):
-        return [("param_names_distinct", distinct_names(c.pre, c.ref("param_names")))]
+        return [("python.param_names_distinct", distinct_names(c.pre, c.ref("param_names")))]
 
     @staticmethod
     def where(st, pn, args, kwargs):
         names, argv = lst(st, pn), lst(st, args)
-        p = PIDX(pn, S("self"))
+        p = PIDX(names, S("self"))
         positional = z3.And(p >= 0, p < z3.Length(names), names[p] == S("self"), p < z3.Length(argv))
         return positional, argv[p], z3.Select(dom(st, kwargs), S("self")), z3.Select(val(st, kwargs), S("self"))
 
@@ -224,7 +224,7 @@ class _InvWrapperBase(FnSpec):
     def common_requires(self, c):
         st, a = c.pre, c.a
         b0 = st.get("attr:ctx_binding", INPROG)
-        return [("closure.param_names_distinct", distinct_names(st, a["param_names"].t)),
+        return [("python.param_names_distinct", distinct_names(st, a["param_names"].t)),
                 ("python.kwargs_is_a_dict", wf_dict(st, a["kwargs"].t)),
                 ("contextvar.binding_is_none_or_a_set", z3.Or(b0 == NONE, z3.And(b0 > 2, b0 < st.ctr)))]
 
